@@ -16,7 +16,7 @@ from vf.ref import rv32
 
 ID = "C14"
 LEVEL = "exploration"
-TECHNIQUE = "round-trip property testing (print -> assemble -> compare fields) over generated instruction objects, plus listing idempotence on generated programs"
+TECHNIQUE = "round-trip property testing (print -> assemble -> compare fields) over generated instruction objects, plus listing idempotence on generated programs, listing invariance under execution (both modes) and under single writes"
 RULE = ("every class of the instruction map except FENCE (53 mnemonics, round-robin), rd/rs1/rs2 in 0..31, immediates over the "
         "whole field incl. boundaries (I/S 12-bit signed, shift 0..31, B 13-bit even, U 20-bit signed, J 21-bit even, csr "
         "0..4095, uimm 0..31), placed at address 4*(pad+i) behind `pad` nop lines (pad up to 4000): load_program(pad + repr) "
